@@ -126,21 +126,32 @@ Proof. split; [repeat constructor; unfold wf_op; simpl; discriminate|vm_compute;
    Built into the model: ONE agreed log                                      (C02's conclusion). *)
 From ZV Require Import Lin.Protocol Lin.Route Lin.ProtocolProofs.
 
-(* (4) every history the protocol can produce is linearizable (witness: the log order, with each locally
-       answered no-op placed after the log prefix its replica had applied) *)
+(* (4) every history the protocol can produce is linearizable (witness: the log order, with each locally answered
+       no-op or plain read placed after the log prefix its replica had applied) ONCE ITS PLAIN READS MAY TAKE
+       EFFECT BEFORE THEIR INVOCATION (relaxed_hist: a plain read's invocation time is moved back to 0; the code
+       serves reads from the local store without a barrier, see (9)); a history without plain reads is
+       linearizable as it stands *)
+Theorem C04_protocol_linearizable_relaxed :
+  forall apply_impl : nat -> N -> state -> op -> state * res,
+  (forall r ts s o, apply_impl r ts s o = step s o) ->
+  forall g, reachable apply_impl g -> linearizable (relaxed_hist g).
+Proof. exact protocol_linearizable_relaxed. Qed.
+Print Assumptions C04_protocol_linearizable_relaxed.
+
 Theorem C04_protocol_linearizable :
   forall apply_impl : nat -> N -> state -> op -> state * res,
   (forall r ts s o, apply_impl r ts s o = step s o) ->
-  forall g, reachable apply_impl g -> linearizable (g_hist g).
+  forall g, reachable apply_impl g -> read_ids g = [] -> linearizable (g_hist g).
 Proof. exact protocol_linearizable. Qed.
 Print Assumptions C04_protocol_linearizable.
 
 (* (5) "takes effect exactly once, at a single point between its request and its reply": an acknowledged
        request is EITHER in the log at exactly one position, committed strictly after its invocation and
-       strictly before its reply, with the specification's reply at that position, OR it is a no-op answered
-       locally behind the barrier at a slot k (entries below k committed before the reply, entries from k on
-       after the invocation, the specification's reply in the state after k entries, state unchanged, and
-       the request is not in the log) *)
+       strictly before its reply, with the specification's reply at that position, OR it was answered locally
+       at a slot k (a no-op behind the barrier, rd = false, or a plain read, rd = true): entries below k were
+       committed before the reply, the reply is the specification's reply in the state after k entries, which
+       it leaves unchanged, the request is not in the log, and - for the barrier-guarded no-ops only - entries
+       from k on were committed after the invocation *)
 Theorem C04_protocol_commit_point :
   forall apply_impl : nat -> N -> state -> op -> state * res,
   (forall r ts s o, apply_impl r ts s o = step s o) ->
@@ -150,10 +161,10 @@ Theorem C04_protocol_commit_point :
                (h_inv h < c_time c)%N /\ (c_time c < t)%N /\
                r = snd (step (exec (firstn p (g_log g))) (h_op h)) /\
                (forall q d, nth_error (g_log g) q = Some d -> cid d = i -> q = p)) \/
-  (exists k, (k <= length (g_log g))%nat /\ (h_inv h < t)%N /\
+  (exists k rd, (k <= length (g_log g))%nat /\ (h_inv h < t)%N /\
              step (exec (firstn k (g_log g))) (h_op h) = (exec (firstn k (g_log g)), r) /\
              (forall p c, nth_error (g_log g) p = Some c -> (p < k)%nat -> (c_time c < t)%N) /\
-             (forall p c, nth_error (g_log g) p = Some c -> (k <= p)%nat -> (h_inv h < c_time c)%N) /\
+             (rd = false -> forall p c, nth_error (g_log g) p = Some c -> (k <= p)%nat -> (h_inv h < c_time c)%N) /\
              (forall p c, nth_error (g_log g) p = Some c -> cid c <> i)).
 Proof. exact protocol_commit_point. Qed.
 Print Assumptions C04_protocol_commit_point.
@@ -197,10 +208,17 @@ Theorem C04_batched_is_sequential : forall ents p s s1 o1 e1,
 Proof. exact batched_is_sequential. Qed.
 Print Assumptions C04_batched_is_sequential.
 
+Theorem C04_batched_protocol_linearizable_relaxed :
+  forall apply_impl : nat -> N -> state -> op -> state * res,
+  (forall r ts s o, apply_impl r ts s o = step s o) ->
+  forall g, reachableB apply_impl g -> linearizable (relaxed_hist g).
+Proof. exact batched_protocol_linearizable_relaxed. Qed.
+Print Assumptions C04_batched_protocol_linearizable_relaxed.
+
 Theorem C04_batched_protocol_linearizable :
   forall apply_impl : nat -> N -> state -> op -> state * res,
   (forall r ts s o, apply_impl r ts s o = step s o) ->
-  forall g, reachableB apply_impl g -> linearizable (g_hist g).
+  forall g, reachableB apply_impl g -> read_ids g = [] -> linearizable (g_hist g).
 Proof. exact batched_protocol_linearizable. Qed.
 Print Assumptions C04_batched_protocol_linearizable.
 
@@ -234,15 +252,39 @@ Theorem C04_shortcut_is_noop : forall s o r, shortcut s o = Some r -> step s o =
 Proof. exact shortcut_step. Qed.
 Print Assumptions C04_shortcut_is_noop.
 
-(* (9) what is NOT claimed, and cannot be. An operation answered from a replica's current local state WITHOUT
-       the barrier gives non-linearizable histories:
-       - plain reads (GET/HGET/LLEN/SCARD...) are still served that way (open known finding);
-       - the no-op shortcuts of SETNX/SADD/SREM/LPOP were, until the fix that put them behind the barrier
-         (the recorded failing history is corpus/C04/lpop-local-shortcut-stale.hist). *)
-Theorem C04_local_read_refuted : reachable_lr stale_read_state /\ ~ linearizable (g_hist stale_read_state).
+(* (9) PLAIN READS. The code answers GET/HGET/LLEN/LRANGE/SCARD/SMEMBERS from the local store of the replica that
+       believes it leads, without consulting the log (t_read). The protocol AS MODELLED therefore has reachable
+       histories that are not linearizable (open known finding) - but linearizable once the read may take effect
+       early (4). What a read IS guaranteed: it returns the specification's reply after exactly the log prefix
+       its replica has applied; that prefix only grows except when the replica restarts; and an acknowledgement
+       sent by replica r is for an entry inside r's applied prefix. So between restarts of r, reads through r
+       are monotonic and see every write r itself acknowledged. *)
+Theorem C04_local_read_refuted :
+  reachable demo_apply stale_read_state /\ ~ linearizable (g_hist stale_read_state) /\
+  linearizable (relaxed_hist stale_read_state).
 Proof. exact local_read_refuted. Qed.
 Print Assumptions C04_local_read_refuted.
 
+Theorem C04_read_sees_applied_prefix :
+  forall apply_impl : nat -> N -> state -> op -> state * res,
+  (forall r ts s o, apply_impl r ts s o = step s o) ->
+  forall g r o, reachable apply_impl g -> mutating o = false ->
+  snd (step (r_st (g_rep g r)) o) = snd (step (exec (firstn (r_applied (g_rep g r)) (g_log g))) o) /\
+  (r_applied (g_rep g r) <= length (g_log g))%nat.
+Proof. exact read_sees_applied_prefix. Qed.
+Print Assumptions C04_read_sees_applied_prefix.
+
+Theorem C04_applied_prefix_grows :
+  forall (apply_impl : nat -> N -> state -> op -> state * res) g g', pstep apply_impl g g' ->
+  (exists suffix, g_log g' = g_log g ++ suffix) /\
+  forall r, (r_applied (g_rep g r) <= r_applied (g_rep g' r))%nat \/
+            (exists k, (k <= r_applied (g_rep g r))%nat /\ g_rep g' r = mkR k (exec (firstn k (g_log g))) []).
+Proof. exact applied_prefix_grows. Qed.
+Print Assumptions C04_applied_prefix_grows.
+
+(* An operation answered from a replica's local state without the barrier is also what the no-op shortcuts of
+   SETNX/SADD/SREM/LPOP did until the fix that put them behind the barrier (recorded failing history:
+   corpus/C04/lpop-local-shortcut-stale.hist); for a state-changing command not even the relaxed reading helps. *)
 Theorem C04_unbarriered_shortcut_refuted :
   reachable_lr stale_shortcut_state /\ ~ linearizable (g_hist stale_shortcut_state).
 Proof. exact unbarriered_shortcut_refuted. Qed.
@@ -256,7 +298,7 @@ Example C04_ex_protocol_run :
 Proof. split; [exact demo_reachable|exact (proj1 demo_history)]. Qed.
 
 Example C04_ex_protocol_local :
-  reachable demo_apply demo_local /\ g_ldone demo_local = [mkD 2 2] /\
+  reachable demo_apply demo_local /\ g_ldone demo_local = [mkD 2 2 false] /\
   g_hist demo_local = [mkHop (OLPush 7) 1 (Some (3, RInt 1%Z)); mkHop OLPop 4 (Some (6, RBulk 7%Z));
                        mkHop OLPop 7 (Some (10, RNil))]%N.
 Proof. split; [exact demo_local_reachable|]. split; [exact (proj1 (proj2 demo_local_history))|exact (proj1 demo_local_history)]. Qed.
